@@ -420,9 +420,18 @@ func c20AlgebraBody(rc *core.RunCtx) {
 			fail("%s(%v, %v) = %v, want the intersection %s", op, a, b, got, setStr(want))
 		}
 	case "S.Equal":
+		// lists are sets: a repeated name changes nothing, and equality is
+		// symmetric
+		a, b := c20Set(tp, univ, true), c20Set(tp, univ, true)
 		got := a.Equal(b)
-		if got != (setStr(A) == setStr(B)) {
+		if got != (setStr(asSet(a)) == setStr(asSet(b))) {
 			fail("%v.Equal(%v) = %v", a, b, got)
+		}
+		if back := b.Equal(a); back != got {
+			fail("%v.Equal(%v) = %v but %v.Equal(%v) = %v", a, b, got, b, a, back)
+		}
+		if am.StatesEqual(a, b) != got {
+			fail("StatesEqual(%v, %v) != S.Equal", a, b)
 		}
 	case "S.Unique":
 		d := c20Set(tp, univ, true)
